@@ -1,4 +1,4 @@
-from props_common import TRUSTED_COMMON
+from props_common import GEN_STORE_TRUST, TRUSTED_COMMON
 import importlib.util, os
 _spec = importlib.util.spec_from_file_location("props_C05_shared", os.path.join(os.path.dirname(os.path.abspath(__file__)), "C05.py"))
 _c05 = importlib.util.module_from_spec(_spec); _spec.loader.exec_module(_c05)
@@ -23,10 +23,13 @@ def compare_histogram(ctx):
 
 
 PROP = {
+    "generators": [{"script": "gen_store.py"}],
     "hooks": ["compare_histogram"],
-    "lean_targets": ["MultiProofs.C07"],
+    "lean_targets": ["MultiProofs.C07", "MultiProofs.GenTieStore"],
     "lean_module": "MultiProofs.C07",
     "theorems": [
+        "Multi.GenTieStore.comparison_is_the_code",
+        "Multi.GenTieStore.V_lex_tie",
         "Multi.listLex_strictTotal",
         "Multi.lexN_strictTotal",
         "Multi.C07.eq_iff",
@@ -44,7 +47,7 @@ PROP = {
         "Multi.C07.le_is_lt_or_eq",
     ],
     "harnesses": [_c05.store_harness("store", ["c07"], 9600, 480000)],
-    "trusted_base": TRUSTED_COMMON + [
+    "trusted_base": TRUSTED_COMMON + GEN_STORE_TRUST + [
         "std::equal / std::lexicographical_compare are modelled by their contract over the library's iterators (counted loops); libstdc++ is not verified",
         "an owning array operand is modelled as a contiguous copy of the view's value (copy construction itself is C04's subject)",
     ],
